@@ -27,7 +27,13 @@ def doc_of_expat(resp):
     return ok, doctype, out
 
 
+XMLNS = b'http://www.w3.org/XML/1998/namespace|'
+
+
 def local(n):
+    # the reserved xml: attributes are reported by the namespace-aware reader under the XML namespace URI
+    if n.startswith(XMLNS):
+        return b'xml:' + n[len(XMLNS):]
     return n.rsplit(b'|', 1)[-1]
 
 
@@ -66,7 +72,9 @@ class Norm:
         le = local(elem)
         if le in self.binary:
             try:
-                return b64_lenient(a) == b64_lenient(b)
+                # (the event parser delivers the opaque bytes themselves; the XML carries them as base64)
+                da = b64_lenient(a)
+                return da == b or da.strip(WS) == b or da == b64_lenient(b)
             except Exception:
                 return False
         if self.wv:
@@ -81,6 +89,12 @@ class Norm:
     def attr_equiv(self, name, a, b):
         if a == b:
             return True
+        if self.lang['id'] == 1901 and local(name) == b'VALUE':
+            # OTA settings: an ICON value is binary carried as base64 (compared by the bytes it denotes)
+            try:
+                return b64_lenient(a) == b64_lenient(b)
+            except Exception:
+                return False
         if local(name) in self.dt_attrs:
             pa, pb = parse_dt(a), parse_dt(b)
             return pa is not None and pa == pb
@@ -137,9 +151,22 @@ def excuses(norm, src):
     stack = []
     for e in src:
         if e[0] == 'S':
+            if stack and stack[-1] in norm.binary:
+                out.add('[mixed-content-in-binary-element]')
             stack.append(local(e[1]))
             if has_ns and local(e[1]) not in names:
                 out.add('[unknown-element-in-namespaced-language]')
+            for an, av in e[2]:
+                if local(an) in norm.dt_attrs and parse_dt(av) is None:
+                    out.add('[invalid-datetime-attribute]')
+            if norm.lang['id'] == 1901 and any(local(an) == b'NAME' and av == b'ICON' for an, av in e[2]):
+                for an, av in e[2]:
+                    if local(an) == b'VALUE':
+                        try:
+                            if not b64_lenient(av):
+                                raise ValueError
+                        except Exception:
+                            out.add('[invalid-base64-in-binary-element]')
         elif e[0] == 'E':
             if stack:
                 stack.pop()
@@ -160,7 +187,7 @@ def invalid_base64_in_binary(norm, src):
         elif e[0] == 'E':
             if stack:
                 stack.pop()
-        elif stack and stack[-1] in norm.binary:
+        elif stack and (stack[-1] in norm.binary or (norm.lang['id'] == 1801 and stack[-1] == b'ds:KeyValue')):
             try:
                 b64_lenient(e[1])
             except Exception:
